@@ -265,8 +265,10 @@ def req_gen(cfg):
     os.makedirs(d, exist_ok=True)
     path = os.path.join(d, 'req_%s.cpp' % P.sha(src))
     if not os.path.exists(path):
-        open(path + '.tmp%d' % os.getpid(), 'w').write(src)
-        os.replace(path + '.tmp%d' % os.getpid(), path)
+        import threading
+        tmp = '%s.tmp%d_%d' % (path, os.getpid(), threading.get_ident())
+        open(tmp, 'w').write(src)
+        os.replace(tmp, path)
     flags = ['-DGCH_DISABLE_CONCEPTS'] if False else []
     exe, log = compile_prog(path, flags, std, cxx, syntax_only=True)
     ok = log.startswith('OK')
@@ -713,7 +715,7 @@ def c14_growth(tier, seed):
             extra.append(Jb.run_job(None, conf, 0, None, seed, None, False, path, 'long append runs up to 4e6 (%s)' % conf))
     res = dict(lines=0, ops=0, restarts=0, skipped=0, sample=[], sigs={}, nlines={}, violations=[], stims=0, stims_total=0, mc=None,
                drv='Growth', drvconf=None, fmode=0,
-               label='design level (Growth.tla): allocations <= 2*ceil(log2 n)+2 and relocations <= 3n+3 for n <= %d under the weakest policy' % maxn,
+               label='design level (Growth.tla): allocations <= 2*ceil(log2 n)+2 and relocations <= 3n+2*ceil(log2 n)+3 for n <= %d under the weakest policy' % maxn,
                coverage_extra=dict(growth_theorem_checked_up_to_n=maxn))
     for r in extra:
         for k in ('lines', 'ops', 'skipped'):
